@@ -130,6 +130,7 @@ def build(prop, info, tier, log):
             obligations.append(("theorem:" + t, ok, note if ok or note else out[-1500:]))
         # no forbidden vernacular anywhere in the development
         rc, out = sh(r"grep -rnE '\b(Admitted|admit|Axiom|Parameter|Conjecture|Unset Guard|bypass_check|Admit Obligations)\b' coq --include=*.v | grep -v '^coq/Gen/.*GENERATED' | grep -vE '\(\*.*(Admitted|admit|Axiom|Parameter|Conjecture).*\*\)' || true", 60)
+        out += section_discipline()
         clean = out.strip() == ""
         obligations.append(("no-admitted-no-axiom-grep", clean, out[:500]))
         coqchk_txt = ""
@@ -140,6 +141,26 @@ def build(prop, info, tier, log):
             obligations.append(("coqchk:" + mod, rc == 0, coqchk_txt if rc else ""))
         fcntl.flock(lock, fcntl.LOCK_UN)
     return obligations, assumptions_txt, coqchk_txt
+
+
+def section_discipline():
+    """Variable / Hypothesis / Context declarations are allowed inside a Section only (outside they declare axioms)"""
+    bad = []
+    for root, _dirs, files in os.walk(os.path.join(VERIF, "coq")):
+        for fn in files:
+            if not fn.endswith(".v"):
+                continue
+            depth = 0
+            path = os.path.join(root, fn)
+            for i, line in enumerate(open(path, encoding="utf-8"), 1):
+                t = line.strip()
+                if re.match(r"(Section|Module Type)\s+\w+", t):
+                    depth += 1
+                elif re.match(r"End\s+\w+\s*\.", t) and depth > 0:
+                    depth -= 1
+                elif depth == 0 and re.match(r"(Local\s+|Global\s+)?(Variables?|Hypothes[ie]s|Context)\b", t):
+                    bad.append(f"{path}:{i}: {t[:80]}\n")
+    return "".join(bad)
 
 
 def parse_assumptions(txt):
